@@ -154,11 +154,11 @@ RunResult Executor::run() {
     run_task(0);
     set_current(nullptr);
   } else {
-    sched_ = Sched();
+    sched_.ntrace = 0; sched_.switches = 0; sched_.replay = nullptr; sched_.replay_len = sched_.replay_pos = 0; sched_.turn = -1;
     sched_.ntasks = ntasks; sched_.rng.reseed(mix(plan_.seed, 0x5C4ED)); sched_.stickiness = plan_.cfgd("sticky", 0.5);
     sched_.only_op_boundaries = plan_.cfgi("opboundary", 0) != 0;
     bool serial = plan_.cfgi("serial", 0) != 0;
-    if (!plan_.sched.empty() && !serial) sched_.replay = &plan_.sched;
+    if (!plan_.sched.empty() && !serial) { sched_.replay = plan_.sched.data(); sched_.replay_len = plan_.sched.size(); }
     sched_.alive_mask = (1 << ntasks) - 1;
     if (serial) { sched_.stickiness = 1.0; }
     sched_.turn = 0;
@@ -170,16 +170,18 @@ RunResult Executor::run() {
       args[t] = {this, t};
       pthread_create(&th[t], nullptr, [](void* a) -> void* {
         Arg* g = (Arg*)a; set_current(&g->ex->tasks_[g->t]);
+        sut::tsan_task_begin();
         sched_task_start(g->t);
         g->ex->run_task(g->t);
         set_current(nullptr);
         sched_task_exit(g->t);
+        sut::tsan_task_end();
         return nullptr; }, &args[t]);
     }
     for (int t = 0; t < ntasks; t++) pthread_join(th[t], nullptr);
     set_scheduler(nullptr);
     res_.counters["task_switches"] += (long)sched_.switches;
-    res_.sched_trace = sched_.trace;
+    res_.sched_trace.assign(sched_.trace, sched_.trace + sched_.ntrace);
   }
   // fold digests
   Digest d;
